@@ -24,7 +24,7 @@ ASSUMPTIONS = ["an exception raised at a call boundary stands for any failure at
                "temp files are not output files: they may exist under the run's private TMPDIR"]
 REAL_VS_STUB = {"real": ["gen_params, gen_seq, gen_coords end to end, vermouth DeferredFileWriter, real file system"],
                 "stub": ["tqdm disabled", "sys.argv pinned", "sys.settrace crash injector"]}
-PROBES = ["crash_between_open_and_write", "existing_file", "existing_backups", "later_success_other_path",
+PROBES = ["relative_output_path", "crash_between_open_and_write", "existing_file", "existing_backups", "later_success_other_path",
           "natural_failure", "prog_gen_params", "prog_gen_seq", "prog_gen_coords", "success_backup_checked"]
 EXHAUSTIVE = {}
 
@@ -81,6 +81,9 @@ def gen_job(verif_seed, tier, index):
         for k in range(1, g.randint(2, 3)):
             pre.append([f"res/#{base}.{k}#", f"backup {k} {g.getrandbits(40)}\n"])
     op["pre_files"] = pre
+    op["relpath"] = g.choice([None, None, True, "dotdot"])
+    if g.random() < 0.3:
+        op["cwd"] = g.choice(["wd", "res"])
     # follow-up operations in the same process
     ff2 = ffgen.gen_ff(g)
     follow = [histgen.make_op(ff2, ffgen.gen_resgraph(g, ff2, maxn=4), g, out="res/later.itp")]
@@ -179,6 +182,8 @@ def run_job(job):
     viols = []
     nt = set()
     evals = 0
+    if op.get("relpath"):
+        probes["relative_output_path"] = 1
     if job["state"] != "absent":
         probes["existing_file"] = 1
     if job["state"] == "file+backups":
